@@ -37,6 +37,7 @@ CHUNK = 1
 MAX_WORKERS = 6
 SHRINK_BUDGET = 60
 SHRINK_SECONDS = 90
+SELFTEST_N = {"quick": 3, "thorough": 8}  # one run costs 5 forks + a fresh interpreter
 RULE = (
     "one run = one program (finite-discrete fragment biased towards random values referenced only from "
     "requirements, or a dynamic program whose behaviors draw random values / do choose / do shuffle at run time) "
